@@ -11,13 +11,13 @@ CHECKS = {
          "Every signed artefact the handlers emit in the run (assertions on POST / body / SOAP delivery, redirect query signatures, signed metadata) is verified on its wire bytes by two independent verifiers with the certificate the IdP publishes.",
          "Trusts crypto/rsa, hashlib, expat; V1 and V2 jointly.", "DESIGN.md §5 C04"),
  "C05": ("exploration", "signed-set membership monitor over the storage event log (what was persisted vs. what the simulated SPs really signed)",
-         "40 configurations x 18 mutation families of validly signed messages are sent to the real SSO handler; whenever a request is accepted although signing was required or a signature value was present, the persisted content must be exactly something the registered key signed. Rejection is always allowed, so the monitor cannot raise a false alarm on stricter code.",
+         "40 configurations x 19 mutation families of validly signed messages are sent to the real SSO handler; whenever a request is accepted although signing was required or a signature value was present, the persisted content must be exactly something the registered key signed. Rejection is always allowed, so the monitor cannot raise a false alarm on stricter code.",
          "Trusts the harness's own signer (crypto/rsa, goxmldsig SigningContext) and the event log; R2 is not judged when parameter occurrences in query and body differ.", "DESIGN.md §5 C05"),
  "C06": ("exploration", "label-by-construction monitor plus independent (expat) re-evaluation of every accepted request",
          "Conformant requests with 0-2 labelled deviations are sent to the real SSO handler; a labelled deviation must never be accepted, and every accepted request is decoded independently and all necessary conditions are re-evaluated against the call's time bracket.",
          "Trusts expat, stdlib base64/flate, the time bracket (2 s slack). Leniencies of encoding/xml that still 'decode as an AuthnRequest' (trailing bytes, duplicate attributes) are not judged.", "DESIGN.md §5 C06"),
  "C07": ("exploration", "conformant-message generator with acceptance monitor (storage log + decoded status)",
-         "Messages a conformant SP can produce (serialisation styles x bindings x signing x encoding styles x KeyInfo layouts x requirements) must be accepted by the real handlers. Known finding D11 is reported as KNOWN-FINDING for its input class only.",
+         "Messages a conformant SP can produce (serialisation styles x bindings x signing x encoding styles x KeyInfo layouts x requirements) must be accepted by the real handlers.",
          "The generator defines 'conformant'; it never sends an empty RelayState parameter and uses UTC 'Z' timestamps.", "DESIGN.md §5 C07"),
  "C08": ("exploration", "outcome monitor over recorded ResponseWriter calls and the storage write log",
          "Each SSO request (valid, invalid at each step, unanswerable, failing persistence; any consumer-binding mix) must end in exactly one of the two outcomes; persist count, reply shape, number of documents/forms/WriteHeader calls and left-over records are checked.",
